@@ -312,6 +312,9 @@ pub fn generate_random_points_periodic<T: CoordinateScalar + SampleUniform, cons
     Ok(points)
 }
 
+/// Attempt budget per requested point for the rejection sampler of the ball generators.
+const BALL_REJECTION_ATTEMPTS_PER_POINT: usize = 1_000_000;
+
 fn generate_random_points_in_ball_with_rng<T, R, const D: usize>(
     n_points: usize,
     radius: T,
@@ -341,7 +344,24 @@ where
 
     let mut points = Vec::with_capacity(n_points);
 
+    // The acceptance probability (ball volume / cube volume) shrinks super-exponentially with D
+    // (about 1e-10 for D = 24), so bound the work: fail with an error instead of spinning.
+    let max_attempts = n_points.saturating_mul(BALL_REJECTION_ATTEMPTS_PER_POINT);
+    let mut attempts: usize = 0;
+
     while points.len() < n_points {
+        if attempts >= max_attempts {
+            return Err(RandomPointGenerationError::RandomGenerationFailed {
+                min: format!("{:?}", bounds.0),
+                max: format!("{:?}", bounds.1),
+                details: format!(
+                    "rejection sampling in the {D}-ball produced only {} of {n_points} points in {max_attempts} attempts",
+                    points.len()
+                ),
+            });
+        }
+        attempts += 1;
+
         let coords = [T::zero(); D].map(|_| rng.random_range(bounds.0..bounds.1));
         let norm_sq = coords.iter().fold(T::zero(), |acc, &c| acc + c * c);
         if norm_sq <= radius_sq {
@@ -371,6 +391,8 @@ where
 /// # Errors
 ///
 /// Returns [`RandomPointGenerationError::InvalidRange`] if `radius` is non-finite or ≤ 0.
+/// Returns [`RandomPointGenerationError::RandomGenerationFailed`] if the rejection sampler exhausts its
+/// attempt budget (very high dimensions, where the ball is a vanishing fraction of the cube).
 ///
 /// # Examples
 ///
@@ -402,6 +424,8 @@ pub fn generate_random_points_in_ball<T: CoordinateScalar + SampleUniform, const
 /// # Errors
 ///
 /// Returns [`RandomPointGenerationError::InvalidRange`] if `radius` is non-finite or ≤ 0.
+/// Returns [`RandomPointGenerationError::RandomGenerationFailed`] if the rejection sampler exhausts its
+/// attempt budget (very high dimensions, where the ball is a vanishing fraction of the cube).
 ///
 /// # Examples
 ///
